@@ -439,4 +439,30 @@ def d6_queue(facts, rep):
         ok = all(o['kind'] in ('rmw', 'cas') for _, o in ws)
         rep.ob('D6', 'K1', fn, 'q_tail changes only by exchange / compare-exchange', ok,
                'q_tail is stored plainly: two requesters can both believe they are the tail', key_extra=fn.p)
-    rep.floor('D6', 5, 'q_tail writers')
+    # a queue node (the scoped_lock itself) is re-armed before it becomes visible: a function that enqueues its node by an
+    # RMW on q_tail and later waits for the grant flag of that node must have stored 0 into that flag (and null into its next
+    # link) on every path before the RMW.  The flag is set by the predecessor's release and never cleared by anyone else, so
+    # a re-used scoped_lock would otherwise see the grant of its previous acquisition.
+    nq = 0
+    for fn in facts.fns.values():
+        if not ('queuing_mutex' in fn.p or 'queuing_rw_mutex' in fn.p):
+            continue
+        enq = [x for x in ops_on(fn, 'q_tail') if x[1]['kind'] == 'rmw']      # exchange: unconditional enqueue (blocking acquire)
+        if not enq:
+            continue
+        waits = [c for c in calls(fn) if (c[3] or {}).get('n', '').startswith('spin_wait') and c[2].get('a') and
+                 last_member(fn, c[2]['a'][0]) in ('m_going', 'my_going')]
+        if not waits:
+            continue
+        going = [x for x in ops_on(fn, 'm_going') + ops_on(fn, 'my_going') if x[1]['kind'] == 'store' and fn.cv(x[1].get('val', -1)) == 0]
+        gp = set(p for p, _ in going)
+        for pos, o in enq:
+            nq += 1
+            ok = bool(gp) and every_path_passes(fn, 'entry', lambda p, e: p in gp, end=pos)[0]
+            rep.ob('D6', 'K4', fn, 'the grant flag of the own queue node is cleared before the node is enqueued', ok,
+                   'the node is published with whatever its going flag held: a scoped_lock that was granted by hand-off before still '
+                   'carries 1, so its next blocking acquire returns at once while the lock is held by another thread',
+                   ln=o['ln'], key_extra='rearm:' + fn.p)
+    if nq < 2:
+        raise AnalysisBroken('D6: blocking enqueue sites with a grant wait found: %d (expected queuing_mutex and queuing_rw_mutex acquire)' % nq)
+    rep.floor('D6', 7, 'q_tail writers + node re-arm')
